@@ -45,39 +45,36 @@ def _pick_tokens(inner):
     return [toks[0], toks[-1]]
 
 
+def _wrap(job):
+    """Build the C03 instance and wrap it (inside the worker).  Returns a C04Inst, or a string saying why the
+    instance is not covered."""
+    def make():
+        inner = job.make()
+        if not hasattr(inner, "lean_open") or not hasattr(inner, "tokens") or not hasattr(inner, "apply"):
+            return "%s: not a one-sink/one-source StreamInst" % getattr(inner, "name", "?")
+        b = bounds(inner.lean_open)
+        if b is None:
+            return "%s (%s): no C04 theorem yet" % (inner.name, inner.lean_open)
+        if inner.name.endswith("/allflags"):
+            return "%s: same element as the reduced-alphabet instance" % inner.name
+        k_hs, k_del, coop_extra, stable, note = b
+        return C04Inst(inner, k_hs, k_del, coop_extra=coop_extra, stable=stable, note=note,
+                       tokens=_pick_tokens(inner) if job.mode == "A" else None)
+    return make
+
+
 def jobs(tier):
     from props import c03
     quick = tier == "quick"
     J = []
-    skipped = []
     for job in c03.jobs(tier):
-        # the instance name / machine is only known after make(); probe it cheaply once
-        try:
-            inner = job.make()
-        except Exception as e:  # an instance of another builder that does not elaborate: not ours to judge
-            skipped.append("c03 instance failed to build: %r" % (e,))
-            continue
-        if not hasattr(inner, "lean_open") or not hasattr(inner, "tokens"):
-            skipped.append("%s: not a one-sink/one-source StreamInst" % getattr(inner, "name", "?"))
-            continue
-        b = bounds(inner.lean_open)
-        if b is None:
-            skipped.append("%s (%s): no C04 theorem yet" % (inner.name, inner.lean_open))
-            continue
-        if inner.name.endswith("/allflags"):
-            continue
-        k_hs, k_del, coop_extra, stable, note = b
-        # built once here; the forked workers inherit the object
-        inst = C04Inst(inner, k_hs, k_del, coop_extra=coop_extra, stable=stable, note=note,
-                       tokens=_pick_tokens(inner) if job.mode == "A" else None)
         if job.mode == "A":
-            J.append(Job("A", lambda inst=inst: inst, max_states=20000 if quick else 400000))
+            J.append(Job("A", _wrap(job), max_states=min(job.kw.get("max_states", 20000), 20000 if quick else 400000),
+                         deadline_s=40 if quick else 400))
         else:
-            J.append(Job("B", lambda inst=inst: inst, cycles=job.kw.get("cycles", 3000),
-                         runs=job.kw.get("runs", 1)))
+            J.append(Job("B", _wrap(job), cycles=job.kw.get("cycles", 3000), runs=job.kw.get("runs", 1)))
     J.append(Job("A0", lambda: StatusInst(), max_states=10000))
     J.append(Job("B0", lambda: StatusInst("packet.Status/random"), cycles=4000 if quick else 40000, runs=1))
-    jobs.skipped = skipped
     return J
 
 
@@ -86,8 +83,6 @@ def correspond(ctx):
     if bad:
         raise RuntimeError("monitor self-test failed: %r" % bad)
     ctx.jobs = jobs(ctx.tier)
-    for s in getattr(jobs, "skipped", []):
-        ctx.cov.notes.append("not covered: " + s)
     ctx.rule = ("model/implementation correspondence transitions (port level, as C03) over (state, obligation, "
                 "letter); non-trivial = a sink or source handshake happened; additionally `stability_checks` = "
                 "transitions on which a pending source token was checked against the real outputs and "
@@ -119,12 +114,60 @@ def search(ctx, disagreements, proof_info):
                         "letter_format": "valid, last, ready"}
             continue
         inst = all_jobs[j].make()
+        if isinstance(inst, str):
+            continue
         r = c04lib.monitor_search(inst, ctx.rng, cycles=3000, runs=3 if j in bad else 1, deadline=deadline)
         if r:
             return {"instance": inst.name, "trace": [list(l) for l in r[0]], "monitor": r[1], "letter_format": FMT}
     return None
 
 
+class _Named:
+    """generic_replay looks instances up by name; skip the uncovered ones."""
+    def __init__(self, make):
+        self._make = make
+
+    def make(self):
+        inst = self._make()
+        if isinstance(inst, str):
+            class _No:
+                name = None
+            return _No()
+        return inst
+
+
 def replay(ctx, payload):
     from explore import generic_replay
-    return generic_replay(ctx, payload, jobs("thorough"))
+    return generic_replay(ctx, payload, [_Named(j.make) for j in jobs("thorough")])
+
+
+# ---------------------------------------------------------------------------------------------------------
+# Findings
+
+F_STRIDE = "C04-strideup-param-unstable"
+
+
+def _probe_strideup_param():
+    """Witness of the (fixed, 3f0170f) StrideConverter defect: a 2-sub-word word waits at the source (ready=0)
+    while the idle producer (valid=0) wiggles the param lines; source.param must not move."""
+    from streamlib import StreamInst
+    from litex.soc.interconnect import stream
+    from litex.soc.interconnect.stream import EndpointDescription as ED
+    m = stream.StrideConverter(ED([("data", 2)], [("p", 2)]), ED([("data", 4)], [("p", 2)]))
+    inst = StreamInst("StrideConverter(up x2,[2]+p2)", m, "strideup 2 2 0 2")
+    # sink.data packs payload (2 bits) | param << 2
+    trace = [(1, 1 | 3 << 2, 1, 0, 0), (1, 2 | 3 << 2, 0, 1, 0), (0, 0 | 0 << 2, 0, 0, 0), (0, 0 | 1 << 2, 0, 0, 0),
+             (0, 0 | 2 << 2, 0, 0, 0), (0, 0 | 2 << 2, 0, 0, 1)]
+    mon = c04lib.StabilityMonitor()
+    from explore import impl_step
+    for t, letter in enumerate(trace):
+        outs = impl_step(inst, letter)
+        msg = mon.observe(letter, outs)
+        if msg:
+            return True, "cycle %d: %s" % (t, msg)
+    return False, "source.param steady over 3 stalled cycles (%d stability checks)" % mon.checks
+
+
+def probes(ctx):
+    fails, what = _probe_strideup_param()
+    return [(F_STRIDE, fails, what)]
